@@ -437,6 +437,14 @@ func limitWorker(tier string, shard, nshard int) *WorkerOut {
 			hs = append(hs, fixRamps([]Letter{a}))
 		}
 		hs = append(hs, histories(alpha, 2)...)
+		// a payload type used, left out of the next batch(es), then used again, on a consumer whose
+		// retained memory is dominated by dictionaries (what the limit is for): the readers of idle
+		// sub-streams are part of the stream's state whatever the memory pressure
+		for _, rich := range []Letter{alpha[7], alpha[6], alpha[2]} {
+			for _, plain := range []Letter{alpha[0], alpha[1]} {
+				hs = append(hs, fixRamps([]Letter{rich, plain, rich}), fixRamps([]Letter{rich, plain, plain, alpha[2]}))
+			}
+		}
 		if thorough {
 			hs = append(hs, histories(alpha[:6], 3)...)
 			big := []Letter{{Sig: sig, Ramp: &Ramp{Kind: rampKind(sig), N: 2000, Uses: 1}}, {Sig: sig, Ramp: &Ramp{Kind: "attrs", N: 1500, Uses: 2}}}
